@@ -166,7 +166,7 @@ class HandshakeEditor:
         return bytes(chunk)
 
 
-def run(kex, editor, sopts=None, copts=None, seed=0):
+def run(kex, editor, sopts=None, copts=None, seed=0, cwait=None):
     loop = P.fresh(seed)
     P.install_wire_labels()
     try:
@@ -174,7 +174,7 @@ def run(kex, editor, sopts=None, copts=None, seed=0):
         co = dict(kex_algs=[kex] if kex else ())
         so.update(sopts or {})
         co.update(copts or {})
-        pair = P.Pair(loop, sopts=so, copts=co)
+        pair = P.Pair(loop, sopts=so, copts=co, cwait=cwait)
         steps = 0
         while True:
             loop.quiesce()
@@ -213,6 +213,7 @@ def run(kex, editor, sopts=None, copts=None, seed=0):
             'salgs': tuple(s.get_extra_info(k) for k in ('kex_alg', 'recv_cipher', 'recv_mac', 'recv_compression',
                                                          'send_cipher', 'send_mac', 'send_compression')),
             'loop_exc': [repr(x.get('exception') or x.get('message'))[:200] for x in loop.unretrieved()],
+            'host_key_reported': c.get_server_host_key() is not None,
         }
         return obs, editor
     finally:
@@ -287,6 +288,21 @@ def edit_worker(job):
             for k, det in viol:
                 acc.violation('kexbind:%s:%s:%s:%s' % (k, kex, d, label.split(':')[0] + ':' + label.split(':')[1][:24]),
                               '%s (edit %s)' % (det, label), {'kind': 'edit', 'kex': kex, 'd': d, 'label': label})
+        # the other entry points that run a handshake: get_server_host_key() waits for the key exchange only,
+        # get_server_auth_methods() for the start of authentication.  An edited exchange must not be reported
+        # as completed to them either (the caller would take the key it names as the server's)
+        for cwait in ('kex', 'auth_methods'):
+            for mtype, occ, label, fn in (plan[::3] if tier == 'quick' else plan):
+                try:
+                    obs, _ = run(kex, HandshakeEditor(d, mtype, occ, fn), cwait=cwait)
+                except Livelock as exc:
+                    acc.violation('kexbind:livelock:%s:%s' % (kex, cwait), str(exc), {'kind': 'edit', 'kex': kex, 'd': d, 'label': label, 'cwait': cwait})
+                    continue
+                acc.add(core.digest((kex, d, label, cwait, obs['client_exc'])), transitions=1)
+                if obs['applied'] and obs['client_ok']:
+                    acc.violation('kexbind:reported-complete-despite-edit:%s:%s:%s:%s' % (cwait, kex, d, label.split(':')[0]),
+                                  'wait=%s: the caller is told the handshake succeeded (host key reported: %s) after edit %s'
+                                  % (cwait, obs['host_key_reported'], label), {'kind': 'edit', 'kex': kex, 'd': d, 'label': label, 'cwait': cwait})
     return acc
 
 
